@@ -32,10 +32,11 @@ def attention_model(p):
             return y
         if p.get("packed"):
             # one MatMul against the packed weight [D, 3D], sliced on the last axis; biases added to the slices
-            wq = g.const(rs.standard_normal((D, 3 * D)) * 0.3, dt, name="w_qkv")
+            W3 = 3 * D + p.get("pad", 0)              # pad: extra projection columns no slice is meant to cover (near misses)
+            wq = g.const(rs.standard_normal((D, W3)) * 0.3, dt, name="w_qkv")
             pr = g.op("MatMul", [x, wq], out="projected")
             ax = g.const([2], "int64")
-            e3 = p.get("slice_end", 3 * D)
+            e3 = p.get("slice_end", W3)
             bounds = p.get("slice_bounds", [(0, D), (D, 2 * D), (2 * D, e3)])
 
             def sl(nm, lo, hi):
